@@ -33,7 +33,7 @@ for r in rows:
     print('| %s | %s | %s | %s | `%s` |' % r)
 n = len(rows); q = sum(1 for r in rows if r[3].startswith('quick')); t = sum(1 for r in rows if r[3].startswith('thorough')); m = n - q - t
 print('\n%d seeds: %d caught in the quick tier by a Verus obligation, %d in the thorough tier, %d not caught.' % (n, q, t, m))
-hs = sorted(glob.glob('/verif/seeded/harmless/*.json'))
+hs = sorted(glob.glob('/verif/seeded/harmless/*/result.json'))
 fa = []; und = {}
 for f in hs:
     r = json.load(open(f))
